@@ -25,6 +25,12 @@ CHECKS["C05"] = (
     "Reference translation is hand-written from the statement; don't-care: a result list consisting of a single None. Terms deeper than 2 are not covered.",
     "6/C05",
 )
+CHECKS["C07"] = (
+    E1,
+    "Inferred results: every statement context (16, nested to depth 1 quick / 2 thorough) x 11 typed return expressions, all pairs (quick) and top/if/else triples (thorough) of return statements are rendered into function and method bodies and analysed; each stub result position must cover every literal type a return statement of the function's own body produces there, and a function without any valued return must have no results. Annotated results: 12 annotation terms alone and in tuples of 1..3 (count, order, translated type), and numpydoc Returns sections with 0..3 named/unnamed entries against 1..3 results (names). Exhaustive within the bound.",
+    "Coverage is one-directional (over-approximation allowed); returns in nested functions or after raise are not required; crashes on non-literal return expressions are counted under C01, not here.",
+    "6/C07",
+)
 NOT_YET = {}  # id -> reason (filled for properties without a check)
 
 props = [json.loads(l) for l in open(V / "properties.jsonl")]
